@@ -70,9 +70,21 @@ type tcase struct {
 	defaultIV         bool
 }
 
+// reusedKey is ONE key buffer overwritten in place from case to case, the way a caller that derives many keys into the
+// same array uses the helpers: an implementation that remembers the slice instead of its contents then sees stale keys.
+var (
+	reusedKey = make([]byte, 16)
+	caseNo    int
+)
+
 func runCase(t interface{ Fatalf(string, ...any) }, c tcase) {
 	const canary = 0xC7
 	key := gen.WithCap(c.key, c.spareKey, canary)
+	caseNo++
+	if caseNo%2 == 0 {
+		copy(reusedKey, c.key)
+		key = reusedKey
+	}
 	in := gen.WithCap(c.pt, c.spareIn, canary)
 	iv := gen.WithCap(c.iv, c.spareKey, canary)
 	if c.defaultIV {
